@@ -33,8 +33,9 @@ def two_candles():
     return c1, c2
 
 
-def run_mode(repo, mode, samples, prices=("p",)):
-    """abstract execution of one 2-minute span with resting orders at the given price atoms; returns fill events (price, time)"""
+def run_mode(repo, mode, samples, prices=("p",), market_reaction=False):
+    """abstract execution of one 2-minute span with resting orders at the given price atoms; returns fill events (price, time).
+    market_reaction: the hook of the first fill submits a MARKET order at the price atom `m` (as Sandbox.market_order does)."""
     case = S.SimCase(list(prices))
 
     def mk(dec):
@@ -45,9 +46,19 @@ def run_mode(repo, mode, samples, prices=("p",)):
         # record the simulated clock at the fill
         orig = pos.attrs["_on_executed_order"]
 
+        state = {"done": False}
+
         def hook(i, a, k):
             i.event("fill_at", a[0].attrs["price"], app.attrs.get("time"))
-            return i.call(orig, a, k)
+            r = i.call(orig, a, k)
+            if market_reaction and not state["done"]:
+                state["done"] = True
+                mo = W.make_order(repo, "MKT", W.enum_value(repo, "sides", "BUY"), W.enum_value(repo, "order_types", "MARKET"), R.atom("qr"), R.atom("m"),
+                                  status=W.enum_value(repo, "order_statuses", "ACTIVE"))
+                os_ = i.world["orders_state"]
+                i.call(i.getattr(os_, "add_order"), [mo], {})
+                os_.attrs["to_execute"].append(mo)
+            return r
         W.bind(pos, "_on_executed_order", hook)
         it.stubs[f"{W.HELPERS}:is_backtesting"] = lambda i, a, k: True
         mod = repo.module(BT)
@@ -61,7 +72,9 @@ def run_mode(repo, mode, samples, prices=("p",)):
                     it.call(FuncV(fn, mod, qual="_simulate_price_change_effect"), [c, "Sandbox", "BTC-USDT"], {})
                     if k == 0:
                         # the step simulator prunes the active list after every minute (the strategy of a 2m+ route is not due yet)
+                        # and then executes the market orders that are waiting
                         it.call(it.getattr(it.world["orders_state"], "update_active_orders"), ["Sandbox", "BTC-USDT"], {})
+                        it.call(it.getattr(it.world["orders_state"], "execute_pending_market_orders"), [], {})
             return it, thunk
         fn = repo.func(BT, "_simulate_price_change_effect_multiple_candles")
         return it, lambda it: it.call(FuncV(fn, mod, qual="_simulate_price_change_effect_multiple_candles"), [Arr2([c1, c2]), "Sandbox", "BTC-USDT"], {})
@@ -156,6 +169,59 @@ def check_fast_orders_and_gaps(repo, rep, tier):
                 rep.violation(rid, f"fast-one-candle|{kind}", "fast simulator, one-candle chunk (the normal simulator follows the path): " + msg, {"ordering": desc})
         rep.instance(rid, desc, sample if n % 500 == 1 else None)
     rep.floor(rid, 1500)
+
+
+def _work_mkt(args):
+    root, ranks = args
+    repo = Repo(root)
+    out = []
+    for rank in ranks:
+        samples = embeddings(rank, 2)
+        for s in samples:
+            s.update({"v1": F(2), "v2": F(3), "cp0": F(1), "now": F(T1), "t_created": F(0), "q0": F(1), "q1": F(1), "qr": F(1)})
+        res, err = {}, None
+        for mode in ("normal", "fast"):
+            try:
+                outs = run_mode(repo, mode, samples, market_reaction=True)
+            except AnalysisError as e:
+                err = f"{mode}: {e}"
+                break
+            runs = []
+            for o in outs:
+                s = o.interp.samples[0] if o.interp.samples else samples[0]
+                f = tuple((o.interp.numeric(e[1], s), o.interp.numeric(e[2], s) if isinstance(e[2], R) else None) for e in o.events if e[0] == "fill_at")
+                act = W.enum_value(repo, "order_statuses", "ACTIVE")
+                pend = tuple(x.name for x in o.interp.world["orders_state"].attrs["to_execute"] if x.attrs.get("status") == act)   # (a queued order that already filled is a no-op)
+                runs.append((o.kind, f, pend))
+            res[mode] = sorted(set(runs), key=repr)
+        out.append((rank, res, err))
+    return out
+
+
+def check_hook_market_orders(repo, rep, tier):
+    rid = "C12-R4d"
+    rep.rule(rid, "a MARKET order submitted by the hook of a fill inside a chunk (e.g. liquidate(), an exit within 0.015 % of the price) is "
+                  "executed at the end of THAT minute, as in the normal simulator, not after the later candles of the chunk: both matchers "
+                  "are executed abstractly on a two-minute span with one resting order and a hook-submitted market order at the price m, for "
+                  "every weak ordering of (o1,c1,h1,l1,c2,h2,l2,p,m): same fills (price, simulated time) and the same orders still waiting")
+    ranks = list(weak_orderings(SYMS + ["m"], CONS))
+    if tier == "quick":
+        ranks = ranks[::16]
+    chunk = max(1, len(ranks) // 64)
+    jobs = [(repo.root, ranks[i:i + chunk]) for i in range(0, len(ranks), chunk)]
+    n = 0
+    with ProcessPoolExecutor(max_workers=min(16, os.cpu_count() or 1)) as ex:
+        for res in ex.map(_work_mkt, jobs):
+            for rank, modes, err in res:
+                if err:
+                    raise AnalysisError(err)
+                n += 1
+                desc = describe(rank)
+                if modes["normal"] != modes["fast"]:
+                    rep.violation(rid, "span|hook-market-order", f"a market order submitted from a fill hook is handled differently by the two simulators for {desc}: "
+                                                                  f"normal {modes['normal']} vs fast {modes['fast']} (fills as (price, time), then the orders still waiting)", {"ordering": desc})
+                rep.instance(rid, desc, {"ordering": desc, "normal": repr(modes["normal"]), "fast": repr(modes["fast"])} if n % 300 == 1 else None)
+    rep.floor(rid, 500)
 
 
 def check_chunk_step(repo, rep, rid="C12-R3", need="gcd-of-all"):
@@ -345,6 +411,7 @@ def run(repo: Repo, rep, tier: str):
     rep.guarded(check_fast_time, repo, rep)
     rep.guarded(check_equivalence, repo, rep, tier)
     rep.guarded(check_fast_orders_and_gaps, repo, rep, tier)
+    rep.guarded(check_hook_market_orders, repo, rep, tier)
     rep.undecided_item("equality of whole-session outputs (trades, balances) of the two simulators for arbitrary strategies - decided per span and structurally")
     rep.undecided_item("spans longer than two minutes / more than one fill per span (outside the property's precondition)")
 
